@@ -5,7 +5,11 @@
 // explore the "clock does not advance between two starts" environment answer.
 package vtime
 
-import "time"
+import (
+	"time"
+
+	"verifkit/vsched"
+)
 
 //go:generate go run ../cmd/genvos
 
@@ -15,8 +19,31 @@ var (
 )
 
 func Now() time.Time {
+	if t, ok := vsched.Now(); ok { // inside a controlled execution the scheduler owns the clock
+		return t
+	}
 	Cur = Cur.Add(Step)
 	return Cur
+}
+
+func Since(t time.Time) time.Duration { return Now().Sub(t) }
+func Until(t time.Time) time.Duration { return t.Sub(Now()) }
+
+// After: inside a controlled execution the timer fires when the explorer's environment says so.
+func After(d time.Duration) <-chan time.Time {
+	if ch, ok := vsched.After(d); ok {
+		return ch
+	}
+	return time.After(d)
+}
+
+func Sleep(d time.Duration) {
+	if _, ok := vsched.Now(); ok {
+		vsched.Advance(d)
+		vsched.Point("sleep")
+		return
+	}
+	time.Sleep(d)
 }
 
 func Reset() {
